@@ -198,7 +198,7 @@ def replay_history(run, fam, hist, d):
 def parse_hist_lines(printed):
     from ..tlc import extract_tuples
 
-    return [[tuple(x) for x in v[1]] for v in extract_tuples("\n".join(printed) if isinstance(printed, list) else printed, "H")]
+    return [[tuple(x) for x in v[1]] for v in extract_tuples("\n".join(printed) if isinstance(printed, list) else printed, 'H"')]
 
 
 def random_histories(fam, rng, n, maxlen):
@@ -285,7 +285,7 @@ def validate_traces(run, fam, traces, atomic, tag):
     verdicts = {}
     from ..tlc import extract_tuples
 
-    for v in extract_tuples(res.out, "V"):
+    for v in extract_tuples(res.out, 'V"'):
         verdicts[v[1]] = (v[2], v[3], v[4])
     missing = [t["id"] for t in traces if t["id"] not in verdicts]
     if missing:
